@@ -14,8 +14,8 @@ from .common import Check
 IA, DR, EM, TR, TK, SP = "droplets.image_analysis", "droplets.droplets", "droplets.emulsions", "droplets.droplet_tracks", "droplets.trackers", "droplets.tools.spherical"
 # the repository functions each hand-written model mirrors (fingerprints of their current source go into the evidence)
 MODELLED = {
-    "C01": [f"{IA}._locate_droplets_in_mask_cartesian", f"{IA}._locate_droplets_in_mask_spherical", f"{IA}._locate_droplets_in_mask_cylindrical_single", f"{IA}._locate_droplets_in_mask_cylindrical", f"{IA}.locate_droplets", f"{EM}.Emulsion.get_phasefield", f"{EM}.Emulsion.remove_overlapping", f"{SP}.polar_coordinates", f"{SP}.radius_from_volume"],
-    "C02": [f"{IA}._locate_droplets_in_mask_cartesian", f"{IA}._locate_droplets_in_mask_cylindrical_single", f"{IA}._locate_droplets_in_mask_cylindrical", f"{EM}.Emulsion.remove_overlapping"],
+    "C01": [f"{IA}._locate_droplets_in_mask_cartesian", f"{IA}._locate_droplets_in_mask_spherical", f"{IA}._locate_droplets_in_mask_cylindrical_single", f"{IA}._locate_droplets_in_mask_cylindrical", f"{IA}.locate_droplets", f"{EM}.Emulsion.get_phasefield", f"{EM}.Emulsion.remove_overlapping", f"{EM}.Emulsion.remove_small", f"{SP}.polar_coordinates", f"{SP}.radius_from_volume"],
+    "C02": [f"{IA}._locate_droplets_in_mask_cartesian", f"{IA}._locate_droplets_in_mask_cylindrical_single", f"{IA}._locate_droplets_in_mask_cylindrical", f"{IA}.locate_droplets", f"{EM}.Emulsion.remove_overlapping", f"{EM}.Emulsion.remove_small"],
     "C03": [f"{SP}.polar_coordinates", f"{DR}.SphericalDroplet._get_phase_field", f"{DR}.DiffuseDroplet._get_phase_field", f"{DR}.PerturbedDropletBase._get_phase_field", f"{DR}.SphericalDroplet.get_phase_field", f"{EM}.Emulsion.get_phasefield"],
     "C04": [f"{IA}.refine_droplet", f"{DR}.SphericalDroplet.data_bounds", f"{DR}.DiffuseDroplet.data_bounds", f"{DR}.PerturbedDropletBase.data_bounds"],
     "C05": [f"{IA}.refine_droplet", f"{IA}.locate_droplets"],
@@ -28,7 +28,7 @@ MODELLED = {
     "C15": [f"{IA}.refine_droplets", f"{EM}.EmulsionTimeCourse.from_storage"],
     "C16": [f"{IA}.get_structure_factor"],
     "C17": [f"{IA}.get_length_scale"],
-    "C18": [f"{IA}.locate_droplets", f"{IA}.threshold_otsu"],
+    "C18": [f"{IA}.locate_droplets", f"{IA}.threshold_otsu", f"{EM}.Emulsion.remove_small"],
     "C19": [f"{IA}.locate_droplets", f"{IA}.refine_droplet", f"{DR}.SphericalDroplet.from_droplet"],
     "C20": [f"{EM}.Emulsion", f"{EM}.EmulsionTimeCourse", f"{TR}.DropletTrack"],
 }
@@ -63,6 +63,20 @@ def main() -> int:
         return 0 if ok else 1
     ck = Check(a.pid, a.tier, seed, level=getattr(mod, "LEVEL", "proof"))
     ck.modelled = MODELLED.get(a.pid, [])
+    # The hand-written models were validated against a particular text of the functions they mirror (harness/model_baseline.json,
+    # written by tools/update_baseline.py).  When that text has changed, the correspondence has to be re-established: the generated
+    # streams of the quick tier are deepened (nothing else changes - a changed source is not a violation).
+    try:
+        from .common import VERIF, source_fingerprints
+
+        base = json.load(open(VERIF / "harness" / "model_baseline.json")).get(a.pid, {})
+        now = source_fingerprints(ck.modelled)
+        ck.changed_sources = sorted(k for k in now if base.get(k) != now[k])
+    except Exception:  # noqa: BLE001
+        ck.changed_sources = []
+    if ck.changed_sources:
+        ck.deep = True
+        print(f"note: the source of {', '.join(ck.changed_sources)} differs from the text the model was validated against; generated streams deepened", file=sys.stderr)
     try:
         mod.run(ck)
     except Exception as e:  # noqa: BLE001
